@@ -63,7 +63,11 @@ def concretise(s, L, hdefs, rounds=80):
     ival = lambda m, t: int(str(m.eval(t, model_completion=True)))
     pinned = set()
     points = {}
+    deadline = time.time() + 90
+    s.set('timeout', 20000)
     for _ in range(rounds):
+        if time.time() > deadline:
+            return None
         m = s.model()
         changed = False
         outs = set()
